@@ -12,7 +12,10 @@ import (
 	"time"
 
 	"github.com/go-i2p/common/certificate"
+	"github.com/go-i2p/common/destination"
 	"github.com/go-i2p/common/key_certificate"
+	"github.com/go-i2p/common/keys_and_cert"
+	"github.com/go-i2p/common/router_identity"
 )
 
 // render: a comparable text form of a method's results (no addresses).
@@ -125,6 +128,32 @@ func certOf(v any) *certificate.Certificate {
 	return nil
 }
 
+// literalise: the same identity as a struct literal over the exported fields, the way a caller would write it down
+func literalise(val any) any {
+	lit := func(k *keys_and_cert.KeysAndCert) *keys_and_cert.KeysAndCert {
+		if k == nil {
+			return nil
+		}
+		n := &keys_and_cert.KeysAndCert{KeyCertificate: k.KeyCertificate, ReceivingPublic: k.ReceivingPublic, SigningPublic: k.SigningPublic}
+		for _, b := range k.Padding {
+			if b != 0 {
+				n.Padding = append([]byte{}, k.Padding...)
+				break
+			}
+		}
+		return n
+	}
+	switch x := val.(type) {
+	case *keys_and_cert.KeysAndCert:
+		return lit(x)
+	case *destination.Destination:
+		return &destination.Destination{KeysAndCert: lit(x.KeysAndCert)}
+	case *router_identity.RouterIdentity:
+		return &router_identity.RouterIdentity{KeysAndCert: lit(x.KeysAndCert)}
+	}
+	return val
+}
+
 func raceLogSize() int64 {
 	dir := os.Getenv("VERIF_RACE_DIR")
 	if dir == "" {
@@ -197,6 +226,11 @@ func init() {
 		o, ref1, ref2 := parsed[0], parsed[1], parsed[2]
 		if !o.OK || o.Val == nil {
 			return Res{"parsed": false, "err": o.Err}
+		}
+		if a.Bool("literal") {
+			// the shared value is one the CALLER assembled from the exported fields (no padding slice when the padding is all zero,
+			// no caches): read-only calls have to leave such a value alone just the same
+			o.Val, ref1.Val, ref2.Val = literalise(o.Val), literalise(ref1.Val), literalise(ref2.Val)
 		}
 		v := reflect.ValueOf(o.Val)
 		methods := readOnlyMethods(v)
